@@ -51,6 +51,7 @@ class Entry:
         self.deref = []
         self.subst = []  # (from, to, tag)
         self.callrewrite = []  # (method, function path, tag)
+        self.sigsubst = []
         self.nocanary = None
         self.rename = None
 
@@ -93,6 +94,11 @@ def parse_vc(path):
                     cur.rename = rest
                 elif word == "nocanary":
                     cur.nocanary = rest or "unspecified"
+                elif word == "sigsubst":
+                    m = re.match(r'"(.*)"\s*=>\s*"(.*)"\s*(#\S+)?$', rest)
+                    if not m:
+                        raise SystemExit(f"{path}:{ln}: bad //@sigsubst")
+                    cur.sigsubst.append((m.group(1), m.group(2), m.group(3) or "#N2"))
                 elif word == "callrewrite":
                     a = rest.split()
                     cur.callrewrite.append((a[0], a[1], a[2] if len(a) > 2 else "#N9"))
@@ -319,6 +325,12 @@ def emit_fn(out, entry, mode, stats, canary=False):
         newname = (entry.rename or entry.fn) + ("__canary" if canary else "")
         edits.append((name_i, name_i + 1, newname, dict(kind="gen", fn=entry.id)))
 
+    for frm, to, tag in entry.sigsubst:
+        r_ = find_snippet(sf, kw, bo, frm)
+        if r_ is None:
+            raise LostAnchor(f"{entry.id}: sigsubst source {frm!r} not found")
+        edits.append((r_[0], r_[1] + 1, to, dict(kind="gen", fn=entry.id, norm=tag)))
+        stats.count(tag.lstrip("#"))
     prefix = ""
     for a in entry.attrs:
         prefix += a + "\n"
